@@ -196,3 +196,25 @@ func verifFuncWithATypeCalledError() any {
 	type error struct{ msg string }
 	return func(in system.Collection, s system.String) (system.Collection, error) { return in, error{"dropped"} }
 }
+
+// C17: a custom function that Compile accepted is the function that is invoked - enabling the experimental functions
+// afterwards does not replace it (a name that is taken stays taken), and its result is passed through unchanged.
+func VerifHarness_C17_AcceptedFunctionIsTheOneInvoked() {
+	t := Clone()
+	name := []string{"join", "probe"}[verifrt.Choose("name", 2)]
+	tag := verifrt.NondetInt32("tag")
+	calls := 0
+	err := t.Register(name, func(in system.Collection, a, b system.String) (system.Collection, error) {
+		calls++
+		return system.Collection{system.Integer(tag)}, nil
+	})
+	verifrt.Assert(err == nil, "a-name-not-in-the-base-table-is-free")
+	if verifrt.NondetBool("experimentalAfterwards") {
+		t = AddExperimentalFuncs(t)
+	}
+	f, ok := t[name]
+	verifrt.Assert(ok && f.MinArity == 2 && f.MaxArity == 2, "arity-is-the-one-declared")
+	out, err := f.Func(verifCtx(), system.Collection{}, &expr.LiteralExpression{Literal: system.String("a")}, &expr.LiteralExpression{Literal: system.String("b")})
+	verifrt.Assert(err == nil && calls == 1 && len(out) == 1 && out[0] == system.Integer(tag), "the-accepted-function-is-invoked-and-its-result-passed-through")
+	verifrt.Reach("end")
+}
